@@ -7,6 +7,7 @@ import (
 	"fmt"
 	"sort"
 	"strconv"
+	"strings"
 	"testing"
 	"time"
 )
@@ -164,6 +165,76 @@ func TestVerifReplayTimeCalendar(t *testing.T) {
 				if got, p := vrEval(t, "{timeattr {0} "+a+" \""+zone+"\"}", us); p != nil || got != attrs[a] {
 					fail("{timeattr %d %s %s} (%s) = %q (panic=%v), the calendar says %q", u, a, zone, ts.Format(time.RFC3339), got, p, attrs[a])
 					return
+				}
+			}
+		}
+	}
+	// one compiled stage evaluated over the whole sequence of instants (as the pipeline does: an
+	// expression is compiled once and applied to every line): the text for an instant must not
+	// depend on what the stage was asked before
+	for _, zone := range []string{"UTC", "America/New_York", "Australia/Lord_Howe", "Asia/Kolkata", "Asia/Kathmandu"} {
+		loc, err := time.LoadLocation(zone)
+		if err != nil {
+			continue
+		}
+		type reused struct {
+			expr   string
+			input  func(ts time.Time) string
+			expect func(ts time.Time) string
+		}
+		var stages []reused
+		for _, b := range bnames {
+			layout := buckets[b]
+			stages = append(stages, reused{"{buckettime {0} " + b + " RFC3339 \"" + zone + "\"}", func(ts time.Time) string { return ts.Format(time.RFC3339) }, func(ts time.Time) string { return ts.Format(layout) }})
+		}
+		for _, fname := range []string{"RFC3339", "NGINX", "DAY", "HOUR", "WDAY"} {
+			layout := named[fname]
+			stages = append(stages, reused{"{timeformat {0} " + fname + " \"" + zone + "\"}", func(ts time.Time) string { return strconv.FormatInt(ts.Unix(), 10) }, func(ts time.Time) string { return ts.Format(layout) }})
+		}
+		for _, a := range []string{"weekday", "week", "yearweek", "quarter"} {
+			a := a
+			stages = append(stages, reused{"{timeattr {0} " + a + " \"" + zone + "\"}", func(ts time.Time) string { return strconv.FormatInt(ts.Unix(), 10) }, func(ts time.Time) string {
+				y, w := ts.ISOWeek()
+				switch a {
+				case "weekday":
+					return strconv.Itoa(int(ts.Weekday()))
+				case "week":
+					return strconv.Itoa(w)
+				case "yearweek":
+					return strconv.Itoa(y) + "-" + strconv.Itoa(w)
+				}
+				return strconv.Itoa((int(ts.Month())-1)/3 + 1)
+			}})
+		}
+		stages = append(stages, reused{"{time {0} RFC3339 \"" + zone + "\"}", func(ts time.Time) string { return ts.Format(time.RFC3339) }, func(ts time.Time) string { return strconv.FormatInt(ts.Unix(), 10) }})
+		instants := vrInstants(loc)
+		for _, st := range stages {
+			kb, cerr := NewStdKeyBuilderEx(false).Compile(st.expr)
+			if cerr != nil || kb == nil {
+				fail("%s does not compile", st.expr)
+				return
+			}
+			for i, u := range instants {
+				// the instant itself, then the same instant as text in another zone's offset
+				for _, ts := range []time.Time{time.Unix(u, 0).In(loc), time.Unix(u, 0).In(time.FixedZone("", ((i%27)-13)*1800))} {
+					n++
+					in, want := st.input(ts), st.expect(time.Unix(u, 0).In(loc))
+					if strings.HasPrefix(st.expr, "{buckettime") {
+						// a text with a numeric offset is read (package time) in that offset
+						want = st.expect(ts)
+					}
+					got, p := func() (out string, panicked interface{}) {
+						defer func() {
+							if r := recover(); r != nil {
+								panicked = r
+							}
+						}()
+						return kb.BuildKey(&vrCtx{[]string{in}}), nil
+					}()
+					if p != nil || got != want {
+						fail("%s, compiled once, evaluation %d with %q = %q (panic=%v); that instant in that zone is %q", st.expr, i, in, got, p, want)
+						return
+					}
 				}
 			}
 		}
